@@ -96,6 +96,14 @@ theorem addDissem_sinv (env : Nat → Content) (sd : SlotData) (s : Shred) (hinv
     obtain ⟨h1, h2, h3⟩ := hinv.rep h b hg
     exact ⟨h1, h2.trans hslot.symm, h3.trans hcap.symm⟩
 
+theorem runDissem_sinv (env : Nat → Content) (ss : List Shred) (sd : SlotData) (hinv : SInv sd) :
+    SInv (runDissem env sd ss).1 := by
+  induction ss generalizing sd with
+  | nil => exact hinv
+  | cons s rest ih =>
+    simp only [runDissem]
+    exact ih _ (addDissem_sinv env sd s hinv).1
+
 /-! ### the whole store and the repair task -/
 
 /-- the invariant of the whole blockstore -/
